@@ -596,11 +596,17 @@ package trzsz
 //@   ensures [C10] result_of("trzszTransfer.checkStop", 0, 0) != nil ==> recvd[t.buffer] == old(recvd)[t.buffer]
 //@ end
 
+//@ # C02: a line is accepted only if its type field is exactly the expected one; what is returned is
+//@ # everything behind the first colon, nothing else (an out-of-place line is an error, never data)
 //@ func trzszTransfer.recvCheck
 //@   requires t.buffer != nil && tbWF(t.buffer)
 //@   assigns fields(t.buffer), recvd, bufLen, bufCap, bufArr, elemsof("byte"), wlog, wlen
 //@   ensures nothingSent()
 //@   ensures tbWF(t.buffer)
+//@   ensures [C02] r1 == nil ==> result_of("bytes.IndexByte", 0, 0) == len(expectType) + 1 && \
+//@       (forall k int {expectType[k]} :: 0 <= k && k < len(expectType) ==> result_of("trzszTransfer.recvLine", 0, 0)[1 + k] == expectType[k])
+//@   ensures [C02] r1 == nil ==> len(r0) == len(result_of("trzszTransfer.recvLine", 0, 0)) - result_of("bytes.IndexByte", 0, 0) - 1 && \
+//@       (forall k int {r0[k]} :: 0 <= k && k < len(r0) ==> r0[k] == result_of("trzszTransfer.recvLine", 0, 0)[result_of("bytes.IndexByte", 0, 0) + 1 + k])
 //@ end
 
 //@ func trzszTransfer.recvString
@@ -1302,8 +1308,15 @@ package trzsz
 //@ # after every iteration. (Windows adds a Ctrl-Z of its own at end of input; excluded here.)
 //@ func TrzszRelay.wrapInput
 //@   requires r.stdinBuffer != nil
+//@   # C14: end of a transfer - whenever a chunk that carries an end marker (#EXIT:, #FAIL:, #fail:) was
+//@   # forwarded while transferring, the relay is back in standby before the next chunk is read
+//@   ghostvar sawEnd bool = false
+//@   after bytes.Contains set sawEnd = sawEnd || r0
+//@   after TrzszRelay.resetToStandby set sawEnd = false
+//@   before bytes.Contains assert [C14] same(p0, buf)
 //@   loop 1
 //@     invariant r.stdinBuffer != nil
+//@     invariant [C14] !sawEnd
 //@     invariant [C13] !windowsRuntime ==> rdLen[r.clientIn] - old(rdLen)[r.clientIn] == \
 //@         (sentBytes[r.stdinBuffer] - old(sentBytes)[r.stdinBuffer]) + (inLen - old(inLen))
 //@ end
@@ -1676,10 +1689,17 @@ package trzsz
 //@ # chunk just read, after switching to "handshaking" (so that nothing can overtake the trigger)
 //@ # and recording the trigger; in standby the chunk goes to the terminal as the detector returned it.
 //@ func TrzszRelay.wrapOutput
+//@   # C14: end of a transfer - whenever a chunk that carries an end marker (#EXIT:, #FAIL:, #fail:) was
+//@   # forwarded while transferring, the relay is back in standby before the next chunk is read
+//@   ghostvar sawEnd bool = false
+//@   after bytes.Contains set sawEnd = sawEnd || r0
+//@   after TrzszRelay.resetToStandby set sawEnd = false
+//@   before bytes.Contains assert [C14] same(p0, buf)
 //@   before go:TrzszRelay.handshake assert [C06] trigger != nil && trigger == result_of("trzszDetector.detectTrzsz", 0, 1)
 //@   before TrzszRelay.listenForTunnel assert [C06] trigger != nil && r.trigger == trigger
 //@   loop 1
 //@     invariant detector.uniqueIDMap != nil && detector.relay
+//@     invariant [C14] !sawEnd
 //@ end
 
 //@ # The connecting side of the tunnel: the connection is handed on for adoption only after our greeting
@@ -1747,4 +1767,100 @@ package trzsz
 //@   ensures [C03] !pending
 //@   loop 1
 //@     invariant [C03] !pending
+//@ end
+
+//@ # C02 (pipelined protocols): the same typed-line check - a line is accepted only if its type field is
+//@ # exactly the expected one, and the payload handed on is everything behind the first colon of that line
+//@ func trzszTransfer.recvCheckV2
+//@   ensures [C02] r3 == nil ==> result_of("bytes.IndexByte", 0, 0) == len(expectType) + 1 && \
+//@       (forall k int {expectType[k]} :: 0 <= k && k < len(expectType) ==> result_of("trzszTransfer.recvLine", 0, 0)[1 + k] == expectType[k])
+//@   ensures [C02] r3 == nil ==> ref(r0) == ref(result_of("trzszTransfer.recvLine", 0, 0)) && \
+//@       off(r0) == off(result_of("trzszTransfer.recvLine", 0, 0)) + result_of("bytes.IndexByte", 0, 0) + 1 && \
+//@       len(r0) == len(result_of("trzszTransfer.recvLine", 0, 0)) - result_of("bytes.IndexByte", 0, 0) - 1
+//@ end
+
+//@ # C06: what the servers print is the trigger the detector's grammar expects: marker, mode letter,
+//@ # version, 13-digit id and tunnel port, in this order and with these separators
+//@ func TrzMain
+//@   before fmt.Sprintf#0 assert [C06] p0 == "\x1b7\x07::TRZSZ:TRANSFER:%s:%s:%013d:%d\r\n" && len(p1) == 4 && \
+//@       (asString(p1[0]) == "R" || asString(p1[0]) == "D") && asString(p1[1]) == kTrzszVersion
+//@ end
+//@ func TszMain
+//@   before fmt.Sprintf#0 assert [C06] p0 == "\x1b7\x07::TRZSZ:TRANSFER:S:%s:%013d:%d\r\n" && len(p1) == 3 && \
+//@       asString(p1[0]) == kTrzszVersion
+//@ end
+
+//@ func tunnelRelay.wrapInput
+//@   # C14: end of a transfer - whenever a chunk that carries an end marker (#EXIT:, #FAIL:, #fail:) was
+//@   # forwarded while transferring, the relay is back in standby before the next chunk is read
+//@   ghostvar sawEnd bool = false
+//@   after bytes.Contains set sawEnd = sawEnd || r0
+//@   after TrzszRelay.resetToStandby set sawEnd = false
+//@   before bytes.Contains assert [C14] same(p0, buf)
+//@   loop 1
+//@     invariant [C14] !sawEnd
+//@ end
+//@ func tunnelRelay.wrapOutput
+//@   # C14: end of a transfer - whenever a chunk that carries an end marker (#EXIT:, #FAIL:, #fail:) was
+//@   # forwarded while transferring, the relay is back in standby before the next chunk is read
+//@   ghostvar sawEnd bool = false
+//@   after bytes.Contains set sawEnd = sawEnd || r0
+//@   after TrzszRelay.resetToStandby set sawEnd = false
+//@   before bytes.Contains assert [C14] same(p0, buf)
+//@   loop 1
+//@     invariant [C14] !sawEnd
+//@ end
+
+//@ # C14: the servers honour what the (possibly relay-narrowed) action allows - binary framing is used only
+//@ # if the action supports it, and a directory or a fork is refused if the action does not support it
+//@ func recvFiles
+//@   requires transfer.buffer != nil && tbWF(transfer.buffer)
+//@   before trzszTransfer.sendConfig assert [C14] action.Confirm && (args.baseArgs.Binary ==> action.SupportBinary) && \
+//@       (args.baseArgs.Directory ==> action.SupportDirectory) && (args.baseArgs.Fork ==> action.SupportFork)
+//@ end
+//@ func sendFiles
+//@   requires transfer.buffer != nil && tbWF(transfer.buffer)
+//@   before trzszTransfer.sendConfig assert [C14] action.Confirm && (args.baseArgs.Binary ==> action.SupportBinary) && \
+//@       (args.baseArgs.Directory ==> action.SupportDirectory) && (args.baseArgs.Fork ==> action.SupportFork)
+//@ end
+//@ func getEscapeChars
+//@   assigns nothing
+//@   loop 1
+//@     invariant ref(escapeChars) > old(alloc())
+//@ end
+//@ func trzszTransfer.recvAction
+//@   requires t.buffer != nil && tbWF(t.buffer)
+//@   ensures [C14] r1 == nil ==> r0 != nil
+//@ end
+
+//@ # The acknowledgement stage of the pipelined sender: an iteration is completed - and the next chunk's
+//@ # acknowledgement awaited - only if the length the receiver acknowledged equals the length of the chunk
+//@ # that was sent (in order: acknowledgements are matched with ackChan one to one).
+//@ func trzszTransfer.pipelineRecvAck$1
+//@   ghostvar sent int = 0
+//@   after recv:ackChan set sent = r0.length
+//@   before send:progressChan assert [C02] result_of("trzszTransfer.pipelineRecvCurrentAck", 0, 3) == nil && \
+//@       result_of("trzszTransfer.pipelineRecvCurrentAck", 0, 0) == sent
+//@   before context.Context.Err#1 assert [C02] result_of("trzszTransfer.pipelineRecvCurrentAck", 0, 3) == nil && \
+//@       result_of("trzszTransfer.pipelineRecvCurrentAck", 0, 0) == sent
+//@   before trzszTransfer.pipelineRecvFinalAck assert [C02] result_of("context.Context.Err", 0, 0) == nil
+//@ end
+
+//@ # The sending stage of the pipelined sender.  deliver: the record queued for the acknowledgement stage
+//@ # carries exactly the length that was just written to the connection without error.
+//@ func trzszTransfer.pipelineSendData$1
+//@   before send:ackChan assert [C02] p0.length == length && result_of("trzszTransfer.sendDataV2", 0, 1) == nil
+//@ end
+//@ # the goroutine: a chunk that fits is delivered whole, once, as the encoder framed it; a larger one is cut
+//@ # into consecutive pieces - each starts where the previous one ended, none is empty beyond the chunk -
+//@ # and the cursor moves only after the piece was delivered without error
+//@ func trzszTransfer.pipelineSendData$2
+//@   ghostvar pos int = 0
+//@   after recv:sendDataChan set pos = r0.index
+//@   after dynamic:deliver#0 set pos = pos + p1
+//@   before dynamic:deliver#1 assert [C02] same(p0, data.buffer) && p1 == len(data.data) && p2
+//@   before dynamic:deliver#0 assert [C02] pos == data.index && same(p0, data.data[pos:pos + p1]) && !p2 && \
+//@       pos + p1 <= len(data.data)
+//@   loop 2
+//@     invariant [C02] pos == data.index
 //@ end
